@@ -136,7 +136,7 @@ impl GroupStorage for MdkMemoryStorage {
 
                 // Apply pagination
                 let start = offset.min(messages.len());
-                let end = (offset + limit).min(messages.len());
+                let end = offset.saturating_add(limit).min(messages.len());
 
                 Ok(messages[start..end].to_vec())
             }
